@@ -28,7 +28,8 @@ RULE = (
     "FLOAT on the field class; every string up to length 3; non-trivial = some operand of a star or "
     "product has an epsilon arc or non-zero weight on the empty string, and some string has non-zero "
     "weight; in a third of the cases every operation is applied twice to the same operand objects (the second "
-    "result is used), and every operand must still denote its own language afterwards; distinct = SHA-1 of the case"
+    "result is used), in a quarter every operand is evaluated and reversed before it is used, and every operand "
+    "must still denote its own language afterwards; distinct = SHA-1 of the case"
 )
 ASSUMPTIONS = [
     "star is only applied where the series converges: the generator scales the operand so that its weight on the empty string is < 3/4 (QQ/FLOAT)",
@@ -99,7 +100,7 @@ def den(M, e, leafs):
     raise ValueError(op)
 
 
-def build(M, K, e, leafs, cls, trace=None, twice=False):
+def build(M, K, e, leafs, cls, trace=None, twice=False, touch=False):
     """the same expression through the library.  Every intermediate automaton is recorded in
     `trace` (expression, object) so that the caller can check that using an automaton as an operand
     did not change it; with `twice` every operation is applied a second time to the same operand
@@ -108,7 +109,12 @@ def build(M, K, e, leafs, cls, trace=None, twice=False):
     R = M.lib
 
     def sub(x):
-        return build(M, K, x, leafs, cls, trace, twice)
+        A = build(M, K, x, leafs, cls, trace, twice, touch)
+        if touch:
+            # the operand has been used before (evaluated, reversed): its memoised views exist
+            A(("a",))
+            A.reverse  # noqa: B018
+        return A
 
     def result():
         if op == "leaf":
@@ -206,7 +212,7 @@ def strategy(draw, tier="quick"):
     e = draw(expr(M, regime if regime != "FLOAT" else "QQ", leafs, 3 if tier == "thorough" else draw(st.sampled_from([2, 3]))))
     for lf in leafs:
         lf["regime"] = regime
-    return {"regime": regime, "cls": cls, "expr": e, "leafs": leafs, "twice": draw(st.integers(0, 2)) == 0}
+    return {"regime": regime, "cls": cls, "expr": e, "leafs": leafs, "twice": draw(st.integers(0, 2)) == 0, "touch": draw(st.integers(0, 3)) == 0}
 
 
 def _ops(e, acc):
@@ -246,7 +252,9 @@ def check(case, ctx):
     trace = []
     twice = bool(case.get("twice"))
     ctx.cls("ops_applied_twice" if twice else None)
-    m = ctx.call("build", build, M, K, e, leafs, cls, trace, twice)
+    touch = bool(case.get("touch"))
+    ctx.cls("operands_evaluated_first" if touch else None)
+    m = ctx.call("build", build, M, K, e, leafs, cls, trace, twice, touch)
     if isinstance(m, LibRaised):
         return
     ref = ctx.call("read", lambda: autoref.Weights(RA.from_lib(M, m)))
